@@ -2,6 +2,7 @@ package main
 
 import (
 	"fmt"
+	"reflect"
 	"strings"
 
 	"github.com/brocaar/lorawan"
@@ -11,11 +12,26 @@ import (
 	"verifharness/internal/macfmt"
 )
 
-// target is one decodable type: a factory of fresh values with their decoder and printer.
+// target is one decodable type: a factory of fresh receivers (pointers), the decoder into a receiver and the
+// printer of a receiver (also used on shallow copies of it).
 type target struct {
 	name  string // key component
 	ctype string // Coq term of type rtype
-	fresh func() (dec func([]byte) error, print func(last []byte) string)
+	mk    func() interface{}
+	dec   func(v interface{}, b []byte) error
+	print func(v interface{}, last []byte) string
+	// touch (optional): what an application does to a decoded value before it keeps it and reuses the receiver
+	// (restore the 32-bit frame counter, decode the FOpts into commands)
+	touch func(v interface{}, r *cq.RNG)
+}
+
+// shallow returns a pointer to a struct copy (`kept := *v`) of the receiver: what a caller keeps when it
+// appends the decoded value to a list and decodes the next input into the same receiver.
+func shallow(v interface{}) interface{} {
+	e := reflect.ValueOf(v).Elem()
+	c := reflect.New(e.Type())
+	c.Elem().Set(e)
+	return c.Interface()
 }
 
 func bools16(m lorawan.ChMask) string {
@@ -38,71 +54,82 @@ func targets() []target {
 	var ts []target
 	for _, b := range macfmt.Builtin {
 		b := b
-		ts = append(ts, target{name: "payload:" + b.Kind, ctype: "(TMacpl " + b.Kind + ")", fresh: func() (func([]byte) error, func([]byte) string) {
-			p := macfmt.Kinds[macfmt.KindIndex(b.Kind)].New()
-			return p.UnmarshalBinary, func([]byte) string { return "(RMacpl " + macfmt.Payload(p) + ")" }
-		}})
+		ts = append(ts, target{name: "payload:" + b.Kind, ctype: "(TMacpl " + b.Kind + ")",
+			mk:  func() interface{} { return macfmt.Kinds[macfmt.KindIndex(b.Kind)].New() },
+			dec: func(v interface{}, d []byte) error { return v.(lorawan.MACCommandPayload).UnmarshalBinary(d) },
+			print: func(v interface{}, _ []byte) string {
+				return "(RMacpl " + macfmt.Payload(v.(lorawan.MACCommandPayload)) + ")"
+			}})
 	}
 	ts = append(ts,
-		target{"ChMask", "TMask", func() (func([]byte) error, func([]byte) string) {
-			var m lorawan.ChMask
-			return m.UnmarshalBinary, func([]byte) string { return "(RMask " + bools16(m) + ")" }
-		}},
-		target{"CFListChannelPayload", "TChannels", func() (func([]byte) error, func([]byte) string) {
-			var p lorawan.CFListChannelPayload
-			return func(b []byte) error { return p.UnmarshalBinary(false, b) }, func([]byte) string {
+		target{name: "ChMask", ctype: "TMask", mk: func() interface{} { return &lorawan.ChMask{} },
+			dec:   func(v interface{}, d []byte) error { return v.(*lorawan.ChMask).UnmarshalBinary(d) },
+			print: func(v interface{}, _ []byte) string { return "(RMask " + bools16(*v.(*lorawan.ChMask)) + ")" }},
+		target{name: "CFListChannelPayload", ctype: "TChannels", mk: func() interface{} { return &lorawan.CFListChannelPayload{} },
+			dec: func(v interface{}, d []byte) error {
+				return v.(*lorawan.CFListChannelPayload).UnmarshalBinary(false, d)
+			},
+			print: func(v interface{}, _ []byte) string {
 				xs := make([]uint64, 5)
-				for i, c := range p.Channels {
+				for i, c := range v.(*lorawan.CFListChannelPayload).Channels {
 					xs[i] = uint64(c)
 				}
 				return "(RChannels " + cq.Ns(xs) + ")"
-			}
-		}},
-		target{"CFListChannelMaskPayload", "TMasks", func() (func([]byte) error, func([]byte) string) {
-			var p lorawan.CFListChannelMaskPayload
-			return func(b []byte) error { return p.UnmarshalBinary(false, b) }, func([]byte) string { return "(RMasks " + masksTerm(p.ChannelMasks) + ")" }
-		}},
-		target{"CFList", "TCFList", func() (func([]byte) error, func([]byte) string) {
-			var l lorawan.CFList
-			return l.UnmarshalBinary, func([]byte) string {
-				t := framefmt.CFList(&l) // (Some (mkCFList ...))
+			}},
+		target{name: "CFListChannelMaskPayload", ctype: "TMasks", mk: func() interface{} { return &lorawan.CFListChannelMaskPayload{} },
+			dec: func(v interface{}, d []byte) error {
+				return v.(*lorawan.CFListChannelMaskPayload).UnmarshalBinary(false, d)
+			},
+			print: func(v interface{}, _ []byte) string {
+				return "(RMasks " + masksTerm(v.(*lorawan.CFListChannelMaskPayload).ChannelMasks) + ")"
+			}},
+		target{name: "CFList", ctype: "TCFList", mk: func() interface{} { return &lorawan.CFList{} },
+			dec: func(v interface{}, d []byte) error { return v.(*lorawan.CFList).UnmarshalBinary(d) },
+			print: func(v interface{}, _ []byte) string {
+				t := framefmt.CFList(v.(*lorawan.CFList)) // (Some (mkCFList ...))
 				t = strings.TrimSuffix(strings.TrimPrefix(t, "(Some "), ")")
 				return "(RCFList " + t + ")"
-			}
-		}},
-		target{"JoinAcceptPayload", "TJoinAccept", func() (func([]byte) error, func([]byte) string) {
-			var p lorawan.JoinAcceptPayload
-			return func(b []byte) error { return p.UnmarshalBinary(false, b) }, func([]byte) string { return "(RPayload " + framefmt.Payload(&p, 0) + ")" }
-		}},
-		target{"FHDR", "TFhdr", func() (func([]byte) error, func([]byte) string) {
-			var x lorawan.FHDR
-			return func(b []byte) error { return x.UnmarshalBinary(true, b) }, func(last []byte) string {
-				return "(RFhdr " + framefmt.FHDR(x, int(last[4]&0x0f)) + ")"
-			}
-		}},
-		target{"MACPayload", "TMac", func() (func([]byte) error, func([]byte) string) {
-			var m lorawan.MACPayload
-			return func(b []byte) error { return m.UnmarshalBinary(true, b) }, func(last []byte) string {
-				return "(RMac " + framefmt.MACPayload(&m, int(last[4]&0x0f)) + ")"
-			}
-		}},
-		target{"PHYPayload", "TPhy", func() (func([]byte) error, func([]byte) string) {
-			var p lorawan.PHYPayload
-			return p.UnmarshalBinary, func(last []byte) string { return "(RPhy " + framefmt.Phy(p, framefmt.DecodedFOptsLen(last)) + ")" }
-		}},
+			}},
+		target{name: "JoinAcceptPayload", ctype: "TJoinAccept", mk: func() interface{} { return &lorawan.JoinAcceptPayload{} },
+			dec: func(v interface{}, d []byte) error { return v.(*lorawan.JoinAcceptPayload).UnmarshalBinary(false, d) },
+			print: func(v interface{}, _ []byte) string {
+				return "(RPayload " + framefmt.Payload(v.(*lorawan.JoinAcceptPayload), 0) + ")"
+			}},
+		target{name: "FHDR", ctype: "TFhdr", mk: func() interface{} { return &lorawan.FHDR{} },
+			dec: func(v interface{}, d []byte) error { return v.(*lorawan.FHDR).UnmarshalBinary(true, d) },
+			print: func(v interface{}, last []byte) string {
+				return "(RFhdr " + framefmt.FHDR(*v.(*lorawan.FHDR), int(last[4]&0x0f)) + ")"
+			},
+			touch: func(v interface{}, r *cq.RNG) { v.(*lorawan.FHDR).FCnt |= uint32(1+r.Intn(9)) << 16 }},
+		target{name: "MACPayload", ctype: "TMac", mk: func() interface{} { return &lorawan.MACPayload{} },
+			dec: func(v interface{}, d []byte) error { return v.(*lorawan.MACPayload).UnmarshalBinary(true, d) },
+			print: func(v interface{}, last []byte) string {
+				return "(RMac " + framefmt.MACPayload(v.(*lorawan.MACPayload), int(last[4]&0x0f)) + ")"
+			},
+			touch: func(v interface{}, r *cq.RNG) { v.(*lorawan.MACPayload).FHDR.FCnt |= uint32(1+r.Intn(9)) << 16 }},
+		target{name: "PHYPayload", ctype: "TPhy", mk: func() interface{} { return &lorawan.PHYPayload{} },
+			dec: func(v interface{}, d []byte) error { return v.(*lorawan.PHYPayload).UnmarshalBinary(d) },
+			print: func(v interface{}, last []byte) string {
+				return "(RPhy " + framefmt.Phy(*v.(*lorawan.PHYPayload), framefmt.DecodedFOptsLen(last)) + ")"
+			},
+			touch: func(v interface{}, r *cq.RNG) {
+				p := v.(*lorawan.PHYPayload)
+				if m, ok := p.MACPayload.(*lorawan.MACPayload); ok {
+					m.FHDR.FCnt |= uint32(1+r.Intn(9)) << 16
+				}
+			}},
 	)
 	for _, up := range []bool{false, true} {
 		up := up
-		ts = append(ts, target{fmt.Sprintf("MACCommand:up=%v", up), "(TCmd " + cq.Bool(up) + ")", func() (func([]byte) error, func([]byte) string) {
-			var m lorawan.MACCommand
-			return func(b []byte) error { return m.UnmarshalBinary(up, b) }, func([]byte) string { return "(RItem " + macfmt.Item(&m) + ")" }
-		}})
+		ts = append(ts, target{name: fmt.Sprintf("MACCommand:up=%v", up), ctype: "(TCmd " + cq.Bool(up) + ")", mk: func() interface{} { return &lorawan.MACCommand{} },
+			dec:   func(v interface{}, d []byte) error { return v.(*lorawan.MACCommand).UnmarshalBinary(up, d) },
+			print: func(v interface{}, _ []byte) string { return "(RItem " + macfmt.Item(v.(*lorawan.MACCommand)) + ")" }})
 	}
 	return ts
 }
 
 func (h *H) reuseOne(t target, b1, b2 []byte) bool {
-	run := func(dec func([]byte) error, b []byte) (st string) {
+	run := func(v interface{}, b []byte) (st string) {
 		cases.Begin(fmt.Sprintf("%s.UnmarshalBinary(%x) [reuse]", t.name, b), map[string]interface{}{"b1": hexs(b1), "b2": hexs(b2)})
 		defer cases.End()
 		defer func() {
@@ -110,23 +137,34 @@ func (h *H) reuseOne(t target, b1, b2 []byte) bool {
 				st = cq.Panic
 			}
 		}()
-		if err := dec(append([]byte{}, b...)); err != nil {
+		if err := t.dec(v, append([]byte{}, b...)); err != nil {
 			return cq.Err
 		}
 		return "ok"
 	}
-	dec, print := t.fresh()
-	if run(dec, b1) != "ok" {
+	v := t.mk()
+	if run(v, b1) != "ok" {
 		return false
 	}
-	used := run(dec, b2)
-	if used == "ok" {
-		used = cq.Ok(print(b2))
+	// the application works on the decoded value, keeps a (shallow) copy of it and reuses the receiver
+	if t.touch != nil && h.r.Bool() {
+		t.touch(v, h.r)
 	}
-	dec2, print2 := t.fresh()
-	fresh := run(dec2, b2)
+	kept := shallow(v)
+	keptText := t.print(kept, b1)
+	used := run(v, b2)
+	if after := t.print(kept, b1); after != keptText {
+		h.s.Fail(cases.GoFail{Key: fmt.Sprintf("kept-copy-changed:%s:%s:%s", t.name, hexs(b1), hexs(b2)),
+			What:   fmt.Sprintf("a copy (kept := *v) of the value decoded from b1 changed when b2 was decoded into the same receiver: %s then %s", clip(keptText), clip(after)),
+			Replay: map[string]interface{}{"api": "v." + t.name + ".UnmarshalBinary(b1); kept := *v; v.UnmarshalBinary(b2); inspect kept", "b1": hexs(b1), "b2": hexs(b2), "kept_before": clip(keptText), "kept_after": clip(after)}})
+	}
+	if used == "ok" {
+		used = cq.Ok(t.print(v, b2))
+	}
+	w := t.mk()
+	fresh := run(w, b2)
 	if fresh == "ok" {
-		fresh = cq.Ok(print2(b2))
+		fresh = cq.Ok(t.print(w, b2))
 	}
 	if !okTerm(used) || !okTerm(fresh) {
 		return false
